@@ -12,6 +12,7 @@ Leg T: cross-entropy family (real-valued statistics): relational facts (any layo
        (PureHistory) with tolerance classes.
 """
 import collections
+import os
 
 import numpy as np
 
@@ -41,6 +42,63 @@ def components(c, stat, C):
   if m in ('tok_count', 'seq_count'):
     return [{'a': stat['a'], 'w': 0}]
   return [dict(a=stat['a'], w=stat['w'])]
+
+
+def build_batches(rows, layout, garbage_row=0, nan_pad=False, omit_full_mask=False):
+  """Real batches for a layout (list of batches, each a list of slots: 0 = masked padding row, k = bank example k)."""
+  batches = []
+  for b in layout:
+    slot_rows = []
+    for s_ in b:
+      if s_ == 0:
+        g = dict(rows[garbage_row % len(rows)])
+        if nan_pad:
+          g = dict(g, pred=np.full_like(g['pred'], np.nan))
+        slot_rows.append(g)
+      else:
+        slot_rows.append(rows[s_ - 1])
+    batch = {k: np.stack([r_[k] for r_ in slot_rows]) for k in slot_rows[0]}
+    mask = np.array([s_ != 0 for s_ in b])
+    if not (all(mask) and omit_full_mask):
+      batch['__mask__'] = mask
+    batches.append(batch)
+  return batches
+
+
+def worker_main():
+  """ModelEvaluator under the pmap backend with N forced host devices: several clients (= layouts) with different
+  numbers of batches, listed shortest first.  Prints each client's metric result."""
+  import json  # pylint: disable=g-import-not-at-top
+  import os  # pylint: disable=g-import-not-at-top
+  import sys  # pylint: disable=g-import-not-at-top
+  job = json.load(sys.stdin)
+  os.environ['XLA_FLAGS'] = '--xla_force_host_platform_device_count=%d' % job['devices']
+  import jax  # pylint: disable=g-import-not-at-top
+  import jax.numpy as jnp  # pylint: disable=g-import-not-at-top
+  from fedjax.core import for_each_client as fec  # pylint: disable=g-import-not-at-top
+  from fedjax.core import metrics  # pylint: disable=g-import-not-at-top
+  from fedjax.core import models  # pylint: disable=g-import-not-at-top
+  assert jax.local_device_count() == job['devices']
+  out = []
+  for g in job['groups']:
+    metric = c14.make_metric(metrics, g['c0'], job['C'])
+    model = models.Model(init=lambda rng_: None, apply_for_train=None, apply_for_eval=lambda params, batch: batch['pred'], train_loss=None,
+                         eval_metrics={'m': metric})
+    rows = [{k: np.array(v, np.int32 if k != 'pred' else np.float32) for k, v in r.items()} for r in g['rows']]
+    clients = [(b'c%d' % i, build_batches(rows, lay, garbage_row=i, nan_pad=False, omit_full_mask=g['omit_full_mask'])) for i, lay in enumerate(g['layouts'])]
+    rec = {'results': None, 'error': None}
+    try:
+      with fec.for_each_client_backend('pmap'):
+        evaluator = models.ModelEvaluator(model)
+      if g['entry'] == 'global':
+        res = dict(evaluator.evaluate_global_params(jnp.zeros(()), clients))
+      else:
+        res = dict(evaluator.evaluate_per_client_params([(cid, bs_, jnp.zeros(())) for cid, bs_ in clients]))
+      rec['results'] = [np.asarray(res[b'c%d' % i]['m'], np.float64).reshape(-1).tolist() for i in range(len(clients))]
+    except Exception as ex:  # pylint: disable=broad-except
+      rec['error'] = f'{type(ex).__name__}: {str(ex)[:200]}'
+    out.append(rec)
+  sys.stdout.write('\nRESULT ' + json.dumps(out) + '\n')
 
 
 def mc_module(bank, garbage):
@@ -117,6 +175,7 @@ def run(ctx):
       chosen[m] = [key]
   total_layouts = 0
   replayed = 0
+  pmap_groups = []
   per_metric = 1200 if big else 150
   for m, keys in sorted(chosen.items()):
     for key in keys[: (3 if big else 1)]:
@@ -153,6 +212,22 @@ def run(ctx):
         return ex
 
       rows = [row(it) for it in bank_items]
+      # for the multi-device replay: three layouts with 1, 2 and 3 batches become three clients, listed shortest first
+      # (the pmap backend stacks the clients' batches of a block, so all batches must have one shape: layouts whose
+      # batches all have `width` rows)
+      for omit in (False, True):
+        for width in ((1, 2, 3) if omit else (2, 3)):
+          by_len = {}
+          for lay in layouts:
+            lo = lay['layout']
+            if lo and all(len(b) == width for b in lo) and (not omit or all(s_ != 0 for b in lo for s_ in b)):
+              by_len.setdefault(len(lo), lay)
+          if len(by_len) >= 2:
+            trio = [by_len[k] for k in sorted(by_len)][:3]
+            pmap_groups.append({'m': m, 'kind': kind, 'c0': c0, 'rows': [{k: v.tolist() for k, v in r_.items()} for r_ in rows],
+                                'layouts': [lay['layout'] for lay in trio], 'expect': [[lay['a'], lay['w']] for lay in trio],
+                                'omit_full_mask': omit, 'entry': 'global' if len(pmap_groups) % 2 == 0 else 'per_client'})
+            break
       for li, lay in enumerate(layouts[:per_metric]):
         batches = []
         for b in lay['layout']:
@@ -205,6 +280,37 @@ def run(ctx):
         ctx.sample({'metric': type(metric).__name__, 'bank_stats': bank, 'layout': layouts[0]['layout'], 'expected': [layouts[0]['a'], layouts[0]['w']]})
   ctx.trace_ok(replayed)
   ctx.leg('R', metrics=sum(len(v[: (3 if big else 1)]) for v in chosen.values()), layouts_enumerated=total_layouts, replays=replayed)
+
+  # ---- the per-client evaluation path on several devices (pmap backend, 2 and 3 forced host devices, separate processes)
+  import json  # pylint: disable=g-import-not-at-top
+  import subprocess  # pylint: disable=g-import-not-at-top
+  import sys  # pylint: disable=g-import-not-at-top
+  npm = 0
+  for devices in (2, 3):
+    pr = subprocess.run([sys.executable, '-c', 'from vf.props import c05; c05.worker_main()'], input=json.dumps({'devices': devices, 'C': C, 'groups': pmap_groups}),
+                        capture_output=True, text=True, env=dict(os.environ), timeout=3000)
+    if pr.returncode != 0 or '\nRESULT ' not in pr.stdout:
+      raise Machinery('c05 worker failed: ' + pr.stderr[-600:])
+    for g, rec in zip(pmap_groups, json.loads(pr.stdout[pr.stdout.rindex('\nRESULT ') + 8:])):
+      cfg = dict(metric=g['m'], args={k: v for k, v in g['c0'].items() if k in ('k', 'masked', 'banned', 'oov', 'eos')}, devices=devices, layouts=g['layouts'],
+                 masks_omitted_on_full_batches=g['omit_full_mask'], entry=g['entry'])
+      npm += 1
+      ctx.case(key=('pmap', g['m'], devices, g['omit_full_mask']), nontrivial=True)
+      if rec['error']:
+        ctx.violation(f'pmap:{g["m"]}:exception', f'{rec["error"]} for {cfg}', replay={'cfg': cfg})
+        continue
+      for i, ((a, w), got) in enumerate(zip(g['expect'], rec['results'])):
+        a, w = np.array(a, np.float64), np.array(w, np.float64)
+        exp = a if g['kind'] == 'sum' else np.where(w == 0, 0., a / np.where(w == 0, 1, w))
+        gotf = np.array(got, np.float64)
+        if gotf.size == 1 and exp.size > 1:
+          gotf = np.broadcast_to(gotf, exp.shape)
+        if gotf.shape != exp.shape or np.any(np.isnan(gotf)) or not np.allclose(gotf, exp, rtol=1e-6, atol=0):
+          ctx.violation(f'pmap:{g["m"]}', f'ModelEvaluator on {devices} devices gives {gotf.tolist()} for client {i} (layout {g["layouts"][i]}), merging its single-example '
+                        f'statistics gives {exp.tolist()}; {cfg}', replay={'cfg': cfg, 'client': i})
+          break
+  ctx.trace_ok(npm)
+  ctx.leg('R', multi_device_evaluations=npm)
 
   # ---- sibling configurations: the SAME batch (same shapes, dtypes, mask) evaluated through the jitted batch path under
   # every configuration of a metric kind, one after the other and again in reverse order, in this one process: each
